@@ -39,7 +39,9 @@ def findActiveSubaps(subaps, mask, threshold, returnFill=False):
                 if returnFill:
                     fills.append(subap.mean(dtype=numpy.float64))
 
-    subapCoords = numpy.array( subapCoords )
+    # (n, 2) also for n = 0: numpy.array([]) of an empty selection is 1-d, so that
+    # subapCoords[:, 0] of a mask with no active sub-aperture raised IndexError
+    subapCoords = numpy.array( subapCoords, dtype=float ).reshape(-1, 2)
 
     if returnFill:
         return subapCoords, numpy.array(fills)
